@@ -316,6 +316,7 @@ func (r *ApplyStageRunner) run(ctx context.Context) {
 				return
 			}
 
+			verifPt("apply.afterRecv", item)
 			processed, err := r.stage.ProcessWithStatus(ctx, item)
 			if err != nil {
 				select {
